@@ -575,16 +575,42 @@ BchCancelSub ==
 ----------------------------------------------------------------------------
 SbFrame == UNCHANGED <<pool, q, bat, err, tries, w, mtx, ux, bc, acts, misc>>
 
-\* NewSubscription :246-265 handshake with the handler :163
+\* NewSubscription :246: newSubscriptions <- sub | <-m.quit.  The handler :163
+\* runs handleNewSubscription :278, whose NotificationsSinceHeight call takes
+\* blockManager.newFilterHeadersMtx.RLock (blockmanager.go:3222, NOT
+\* selectable): while it sits there it serves nothing else.  (sb.rq = the
+\* subscription being registered.)
 Register(k, s, nextpc) ==
   /\ Pending(k) /\ Pc(k) = "reg"
   /\ \/ /\ g.subh = "sel"
-        /\ sb' = [sb EXCEPT !.subs = sb.subs \cup {s}, !.fwd[s] = "wait"]
-        /\ cs' = SetPc(k, nextpc)
-        /\ UNCHANGED g /\ SbFrame
+        /\ g' = G("subh", "nsh")
+        /\ sb' = [sb EXCEPT !.rq = s]
+        /\ cs' = SetPc(k, "regw")
+        /\ SbFrame
         /\ Finish(I("Register"))
      \/ /\ Closed("M")
         /\ cs' = Return(k, C_SHUT)                          \* ErrSubscriptionManagerStopped
+        /\ UNCHANGED <<g, sb>> /\ SbFrame
+        /\ Finish(A("Ret", k, 0, C_SHUT, "ok"))
+
+\* the handler got the read lock, registered the subscriber :303 and answered :164
+Registered ==
+  /\ g.subh = "nsh" /\ g.flk = "free"
+  /\ g' = G("subh", "sel")
+  /\ sb' = [sb EXCEPT !.subs = sb.subs \cup {sb.rq}, !.fwd[sb.rq] = "wait", !.rq = "none", !.ans = sb.rq]
+  /\ UNCHANGED cs /\ SbFrame
+  /\ Finish(I("Registered"))
+
+\* NewSubscription :256 select { err := <-sub.errChan | <-m.quit }
+RegWait(k, s, nextpc) ==
+  /\ Pending(k) /\ Pc(k) = "regw"
+  /\ \/ /\ sb.ans = s
+        /\ sb' = [sb EXCEPT !.ans = "none"]
+        /\ cs' = SetPc(k, nextpc)
+        /\ UNCHANGED g /\ SbFrame
+        /\ Finish(I("RegWait"))
+     \/ /\ Closed("M") /\ sb.ans # s
+        /\ cs' = Return(k, C_SHUT)
         /\ UNCHANGED <<g, sb>> /\ SbFrame
         /\ Finish(A("Ret", k, 0, C_SHUT, "ok"))
 
@@ -704,10 +730,10 @@ CfhQallEnd(next) ==
   /\ g.cfh = "qall"
   /\ \/ next = "retry" /\ UNCHANGED bat
      \/ next = "check" /\ UNCHANGED bat
-     \/ next = "ntfn" /\ UNCHANGED bat             \* headers verified and written: notify
+     \/ next = "wr" /\ g.flk = "free" /\ UNCHANGED bat   \* headers verified: write them
      \/ next = "getblk" /\ SyncC /\ bat["cg"] = "none" /\ err["cg"] = "none"
         /\ bat' = [bat EXCEPT !["cg"] = "sub"]
-  /\ g' = G("cfh", next)
+  /\ g' = IF next = "wr" THEN G2("cfh", "wr", "flk", "cfh") ELSE G("cfh", next)
   /\ UNCHANGED <<err, sb>> /\ BmFrame
   /\ Finish(I("CfhQallEnd"))
 
@@ -723,12 +749,22 @@ CfhCpqEnd ==
   /\ g.cfh = "cpq"
   /\ \/ /\ err["ch"] # "none"
         /\ err' = [err EXCEPT !["ch"] = "none"]
-        /\ \E n \in {"check", "ntfn"} : g' = G("cfh", n)      \* headers written :1440 notify
+        /\ \/ g' = G("cfh", "check")
+           \/ g.flk = "free" /\ g' = G2("cfh", "wr", "flk", "cfh")   \* a verified batch: write it
      \/ /\ Closed("BM") /\ err["ch"] = "none"
         /\ UNCHANGED err
         /\ g' = G("cfh", "exited")
   /\ UNCHANGED <<bat, sb>> /\ BmFrame
   /\ Finish(I("CfhCpqEnd"))
+
+\* writeCFHeadersMsg: store.WriteHeaders :1416, then the new tip is published
+\* under newFilterHeadersMtx :1425-1428 (write lock, released BEFORE the
+\* notifications are sent)
+CfhWrote ==
+  /\ g.cfh = "wr"
+  /\ g' = G2("cfh", "ntfn", "flk", "free")
+  /\ UNCHANGED <<bat, err, sb>> /\ BmFrame
+  /\ Finish(I("CfhWrote"))
 
 \* writeCFHeadersMsg :1440 onBlockConnected per written filter header:
 \* blockNtfnChan <- | <-b.quit, taken by the subscription handler :173
@@ -872,7 +908,7 @@ Init ==
      \E c \in (IF pool = P_EMPTY THEN {"first", "cond"} ELSE {"first"}) :
        g = [sp |-> "idle", disp |-> "run", wk |-> IF pool = P_EMPTY THEN "none" ELSE "idle",
             bmg |-> "cond", bch |-> "sel", rb |-> "none", subh |-> "sel", blkh |-> "sel",
-            cfh |-> c, tick |-> "none", bw |-> "sel", ph |-> "sel", dial |-> d]
+            cfh |-> c, tick |-> "none", bw |-> "sel", ph |-> "sel", dial |-> d, flk |-> "free"]
   /\ bat = [o \in Owners |-> "none"]
   /\ err = [o \in Owners |-> "none"]
   /\ tries = [o \in Owners |-> 0]
@@ -884,7 +920,7 @@ Init ==
            fwd   |-> [s \in SubIds |-> IF s = "b" THEN "wait" ELSE "none"],
            nch   |-> [s \in SubIds |-> "open"],
            item  |-> [s \in SubIds |-> FALSE],
-           squit |-> {}]
+           squit |-> {}, rq |-> "none", ans |-> "none"]
   /\ acts = <<>>
   /\ cs = [k \in AllKinds |-> [st |-> C_NONE, pc |-> "off"]]
   /\ misc = [pdisc |-> FALSE, reopen |-> R_NOT, rsn |-> 0, rretry |-> FALSE, dial |-> IF g.dial = "dialing" THEN 1 ELSE 0]
@@ -908,7 +944,8 @@ Internal ==
   \/ GetUtxoRet \/ BmSignal \/ BmWake \/ BmTop \/ BmCfLock
   \/ \E b \in BOOLEAN : BmGot(b)
   \/ SendTxSubmit \/ BchBcastEnd \/ SendTxRet \/ BchRebroadcast \/ RbEnd \/ BchQuit \/ BchCancelSub
-  \/ Register(K_SUB, "u", "read") \/ Register(K_RESCAN, "r", "cur")
+  \/ Register(K_SUB, "u", "read") \/ Register(K_RESCAN, "r", "cur") \/ Registered
+  \/ RegWait(K_SUB, "u", "read") \/ RegWait(K_RESCAN, "r", "cur")
   \/ ReaderRet(K_SUB, "u") \/ ReaderRet(K_RESCAN, "r")
   \/ \E s \in SubIds : FwdTake(s) \/ FwdDeliver(s) \/ FwdQuit(s)
   \/ SubhQuit
@@ -916,8 +953,8 @@ Internal ==
   \/ BlkhNtfn \/ BlkhQuit
   \/ CfhFirst \/ Tick
   \/ \E n \in {"exited", "cond", "qall", "cpq"} : CfhWoken(n)
-  \/ \E n \in {"retry", "check", "getblk", "ntfn"} : CfhQallEnd(n)
-  \/ CfhNtfn
+  \/ \E n \in {"retry", "check", "getblk", "wr"} : CfhQallEnd(n)
+  \/ CfhWrote \/ CfhNtfn
   \/ CfhRetryEnd \/ CfhCpqEnd \/ CfhGetblkEnd \/ CfhCheck
   \/ \E b \in BOOLEAN : RsNext(b) \/ RsGot(b)
   \/ RsFLock \/ RsMark \/ RsRetry \/ RsRet
@@ -943,15 +980,16 @@ Fair ==
   /\ WF_vars(\E b \in BOOLEAN : BmGot(b))
   /\ WF_vars(SendTxSubmit) /\ WF_vars(BchBcastEnd) /\ WF_vars(SendTxRet) /\ WF_vars(RbEnd)
   /\ WF_vars(BchQuit) /\ WF_vars(BchCancelSub)
-  /\ WF_vars(Register(K_SUB, "u", "read")) /\ WF_vars(Register(K_RESCAN, "r", "cur"))
+  /\ WF_vars(Register(K_SUB, "u", "read")) /\ WF_vars(Register(K_RESCAN, "r", "cur")) /\ WF_vars(Registered)
+  /\ WF_vars(RegWait(K_SUB, "u", "read")) /\ WF_vars(RegWait(K_RESCAN, "r", "cur"))
   /\ WF_vars(ReaderRet(K_SUB, "u")) /\ SF_vars(ReaderRet(K_RESCAN, "r"))
   /\ \A s \in SubIds : WF_vars(FwdQuit(s))
   /\ WF_vars(SubhQuit)
   /\ WF_vars(BlkhNtfn) /\ SF_vars(BlkhQuit)
   /\ WF_vars(CfhFirst) /\ WF_vars(Tick)
   /\ WF_vars(\E n \in {"exited", "cond", "qall", "cpq"} : CfhWoken(n))
-  /\ WF_vars(\E n \in {"retry", "check", "getblk", "ntfn"} : CfhQallEnd(n))
-  /\ WF_vars(CfhNtfn)
+  /\ WF_vars(\E n \in {"retry", "check", "getblk", "wr"} : CfhQallEnd(n))
+  /\ WF_vars(CfhWrote) /\ WF_vars(CfhNtfn)
   /\ WF_vars(CfhRetryEnd) /\ WF_vars(CfhCpqEnd) /\ WF_vars(CfhGetblkEnd) /\ WF_vars(CfhCheck)
   /\ WF_vars(\E b \in BOOLEAN : RsNext(b)) /\ WF_vars(\E b \in BOOLEAN : RsGot(b))
   /\ WF_vars(RsFLock) /\ WF_vars(RsMark) /\ WF_vars(RsRetry) /\ WF_vars(RsRet)
@@ -978,7 +1016,8 @@ TypeOK ==
   /\ g.wk \in {"none", "idle", "job", "res", "exited"}
   /\ g.bmg \in {"cond", "woken", "top", "cflock", "getblk", "getcf", "exited"}
   /\ g.bch \in {"sel", "bcast", "cancelsub", "exited"}
-  /\ g.cfh \in {"first", "cond", "woken", "qall", "cpq", "getblk", "retry", "check", "ntfn", "exited"}
+  /\ g.cfh \in {"first", "cond", "woken", "qall", "cpq", "getblk", "retry", "check", "wr", "ntfn", "exited"}
+  /\ g.subh \in {"sel", "nsh", "exited"}
   /\ \A o \in Owners : bat[o] \in {"none", "sub", "queued", "job"}
   /\ \A o \in Owners : err[o] \in {"none", "ok", "fail", "shut", "cancel"}
   /\ mtx \in {"free", "cf", "ux", "rs"}
@@ -1002,7 +1041,7 @@ PCS == <<"idle", "connmgr", "bcast_wait", "utxo_wait", "wm_wait", "sub_wait", "s
          "wait", "send", "sub", "queued", "ok", "fail", "shut", "cancel", "timeout", "disc",
          "free", "cf", "ux", "rs", "gb", "ch", "cg", "open", "closed", "off", "lock", "reg", "next",
          "flock", "filter", "block", "mark", "read", "waitblk", "cur", "hdr", "cfh", "ret",
-         "ret_s", "ret_c", "ret_l">>
+         "ret_s", "ret_c", "ret_l", "nsh", "regw", "wr", "b", "u", "r">>
 PIdx == [v \in {PCS[i] : i \in 1..Len(PCS)} |-> CHOOSE i \in 1..Len(PCS) : PCS[i] = v]
 Ix(seq, v) == PIdx[v]
 OSEQ == <<"gb", "cf", "ux", "rs", "ch", "cg">>
@@ -1027,6 +1066,7 @@ State == <<pool>>
          \o [i \in 1..Len(acts) |-> 10 * acts[i].k + acts[i].m]
          \o <<99>>
          \o [i \in 1..7 |-> 100 * cs[i].st + Ix(PCS, cs[i].pc)]
-         \o <<B2I(misc.pdisc), misc.reopen, misc.rsn, B2I(misc.rretry), misc.dial, B2I(abs.stopped)>>
+         \o <<Ix(PCS, g.flk), Ix(PCS, sb.rq), Ix(PCS, sb.ans),
+              B2I(misc.pdisc), misc.reopen, misc.rsn, B2I(misc.rretry), misc.dial, B2I(abs.stopped)>>
 View  == <<pool, q, g, bat, err, tries, w, mtx, ux, bc, sb, acts, cs, misc, abs>>
 =============================================================================
